@@ -224,6 +224,35 @@ def shared_module_designs():
             yield (f"shared-module/d{depth}/{'-'.join(order)}", mk(order, depth))
 
 
+def attribute_named_pin_designs():
+    """external-module leaves whose pins are called like attributes of the Instance object (`name`, `of`, `conns`, `n`),
+    one and two levels down"""
+    import hdl21 as h
+
+    def mk(depth):
+        def b():
+            E = h.ExternalModule(name="PinNames", port_list=[h.Inout(name=n_) for n_ in ("name", "of", "a", "desc")],
+                                 desc="", domain="fx")
+            cur = h.Module(name="PnLeafHolder")
+            cur.x, cur.y = h.Port(), h.Port()
+            cur.k = h.Signal()
+            i = E()()
+            for pin, sig in (("name", cur.x), ("of", cur.y), ("a", cur.k), ("desc", cur.k)):
+                i.connect(pin, sig)
+            cur.add(i, name="e")
+            cur.r = h.R(r=1)(p=cur.k, n=cur.y)
+            for k in range(depth):
+                up = h.Module(name=f"PnUp{k}")
+                up.x, up.y = h.Port(), h.Port()
+                up.u = cur(x=up.x, y=up.y)
+                up.u2 = cur(x=up.y, y=up.x)
+                cur = up
+            return cur
+        return b
+    for depth in (1, 2):
+        yield (f"attribute-named-pins/d{depth}", mk(depth))
+
+
 def flat_top_designs():
     """single-level tops (only leaf devices below them) that have NOT been elaborated and use what elaboration resolves:
     arrays, port references, no-connects, bundles, instance pairs; the `invalid/` ones must be refused"""
@@ -369,7 +398,7 @@ def run(ctx):
     ctx.assumptions.append("flattened-name injectivity is proved for paths of up to 3 instances (arity unrolled); walk() "
                            "itself (a recursive generator) and flatten()'s assembly loops are decided by the bounded part")
     fam = [d for k, d in enumerate(design_family(ctx.tier, ctx.seed)) if ctx.tier == "thorough" or k % 3 == 0]
-    cases = itertools.chain(hier_designs(ctx.tier, ctx.seed), flat_top_designs(), shared_module_designs(), fam)
+    cases = itertools.chain(hier_designs(ctx.tier, ctx.seed), flat_top_designs(), shared_module_designs(), attribute_named_pin_designs(), fam)
     ctx.run_bounded("flatten-vs-original", cases, check_flatten,
                     rule="generated scalar/bus hierarchies (depth 1-3, primitive and external-module leaves, internal "
                          "nets at every level, ports passed through levels, names colliding with ':'-joined paths) plus "
@@ -385,7 +414,7 @@ def run(ctx):
 
 def replay(payload):
     want = (payload.get("input") or {}).get("design")
-    for desc, b in itertools.chain(hier_designs("quick", 0), flat_top_designs(), shared_module_designs(), design_family("thorough", 0)):
+    for desc, b in itertools.chain(hier_designs("quick", 0), flat_top_designs(), shared_module_designs(), attribute_named_pin_designs(), design_family("thorough", 0)):
         if desc == want:
             r = check_flatten((desc, b))
             print("replay:", r)
